@@ -428,9 +428,10 @@ func runOne(tw *tr.W, root string, idx int, b Behaviour, seed int64) error {
 		KeepCertificatesHistory: true, RetryCertAfterInError: b.Cfg.Retryimm,
 		CheckStatusCertificateInterval: cfgtypes.Duration{Duration: 0},
 	}
-	if b.Cfg.Maxblocks > 0 {
-		// a size limit that admits about `maxblocks` blocks of one bridge each is exercised by C17; here only unlimited
-		n.cfg.MaxCertSize = 0
+	if b.Cfg.Maxblocks == 1 {
+		// a size limit nothing fits in: limitCertSize cuts every certificate down to a single block (the model's
+		// MaxCertBlocks = 1); the exact byte arithmetic is C17's business
+		n.cfg.MaxCertSize = 1
 	}
 	rec := &recorder{tw: tw, w: w, n: n}
 	n.ag.onSubmit = rec.onSubmit
